@@ -125,6 +125,8 @@ func runC17(c *Ctx) {
 	checkOpFieldValidation(c)
 	// the files attached to the recorded operation stay reachable from the commit (shared with C04)
 	checkFilesTravel(c)
+	// the returned bug shows the recorded change once (shared with C10)
+	checkAppendNeverCompiles(c, "R10.2")
 
 	rms := w.resolverMethods()
 	if len(rms) == 0 {
